@@ -53,6 +53,23 @@ func simCases(mp [][2]int) []Params {
 	return out
 }
 
+// rotCases: (M,P) x addressing-mode pairs x concrete pc x concrete shift k
+func rotCases(mp [][2]int) []Params {
+	var out []Params
+	for _, c := range mp {
+		for a := 0; a < 8; a++ {
+			for b := 0; b < 8; b++ {
+				for pc := 0; pc < c[0]; pc++ {
+					for k := 0; k < c[0]; k++ {
+						out = append(out, Params{"M": c[0], "P": c[1], "amode": a, "bmode": b, "pc": pc, "k": k})
+					}
+				}
+			}
+		}
+	}
+	return out
+}
+
 func pairs(ms, ps []int) [][2]int {
 	var out [][2]int
 	for _, m := range ms {
@@ -115,5 +132,40 @@ func init() {
 				Thorough: grid([]string{"M", "P", "len"}, []int{3, 4, 5, 8, 13}, []int{1, 2, 3}, []int{0, 1, 2, 3})},
 		},
 		Outside: []string{"core sizes other than the listed cases (creation: the core size is a case parameter, every other field is symbolic in 0..2^20)", "more than 3 warriors"},
+	})
+
+	Properties = append(Properties, &PropertySpec{
+		ID: "C12",
+		Harnesses: []HarnessSpec{
+			{Name: "C12_step", Expect: []string{"end", "rotated-core-equal"}, Witnesses: 1,
+				Quick:    rotCases([][2]int{{3, 1}, {4, 2}, {5, 2}}),
+				Thorough: rotCases([][2]int{{3, 1}, {3, 2}, {4, 2}, {5, 2}, {5, 3}, {6, 2}, {7, 2}, {8, 3}, {9, 2}, {11, 2}, {13, 2}})},
+			{Name: "C12_step_canary", Role: "canary",
+				Quick:    []Params{{"M": 5, "P": 2, "amode": 0, "bmode": 0, "pc": 1, "k": 2}},
+				Thorough: []Params{{"M": 5, "P": 2, "amode": 0, "bmode": 0, "pc": 1, "k": 2}}},
+			{Name: "C12_spawn", Expect: []string{"end", "rotated-core-equal"},
+				Quick:    grid([]string{"M", "P", "len"}, []int{3, 5, 8}, []int{1, 2}, []int{1, 3}),
+				Thorough: grid([]string{"M", "P", "len"}, []int{3, 4, 5, 8, 13, 16}, []int{1, 2, 3}, []int{1, 2, 3})},
+		},
+		Outside: []string{"core sizes other than the listed cases", "whole battles are covered by induction: the step harness is one task from an arbitrary state, the cycle harness one scheduling round, the spawn harness the base case"},
+	})
+	Properties = append(Properties, &PropertySpec{
+		ID: "C15",
+		Harnesses: []HarnessSpec{
+			{Name: "C15_step", Expect: []string{"end", "changed-cell-reported"}, Quick: mpQuick, Thorough: mpThorough},
+			{Name: "C15_maytouch", Expect: []string{"end", "reported-cell-may-be-touched"},
+				Quick:    simCases(quickMP),
+				Thorough: simCases(pairs(append(seq(3, 16), 24, 32), []int{1, 2, 3}))},
+			{Name: "C15_cycle", Expect: []string{"end", "warrior-terminate-iff-death"},
+				Quick:    grid([]string{"M", "P", "n"}, []int{3, 4, 5}, []int{1, 2}, []int{1, 2}),
+				Thorough: grid([]string{"M", "P", "n"}, []int{3, 4, 5, 8, 13}, []int{1, 2, 3}, []int{1, 2, 3})},
+			{Name: "C15_spawn", Expect: []string{"end"},
+				Quick:    grid([]string{"M"}, []int{3, 5, 8}),
+				Thorough: grid([]string{"M"}, []int{3, 4, 5, 8, 13, 16})},
+			{Name: "C15_recorder", Expect: []string{"end", "recorder-touched-cell"},
+				Quick:    grid([]string{"M", "len", "wi"}, []int{3, 5, 8}, []int{0, 1, 3}, []int{0, 1}),
+				Thorough: grid([]string{"M", "len", "wi"}, []int{3, 4, 5, 8, 13, 16}, []int{0, 1, 2, 3}, []int{0, 1})},
+		},
+		Outside: []string{"core sizes other than the listed cases", "the recorder property is one report from an arbitrary recorder state (inductive over the report stream)"},
 	})
 }
